@@ -990,16 +990,25 @@ def make_cases(pid, tier, seed):
         out = [c for c in out if not c.get("gauge")]
         # keep only cases that really involve complex data
         out = [c for c in out if _has_complex(c)]
+    # several operands differentiated jointly (order 2: mixed second derivatives; order 1: the rule paths
+    # taken when two / three or more arguments of one call are traced at once)
+    extra = []
+    extra3 = []
+    isf = lambda a: (isinstance(a, (float, complex, onp.floating, onp.complexfloating)) and not isinstance(a, bool)) or (isinstance(a, onp.ndarray) and a.dtype.kind in "fc")
+    for c in out:
+        if c["form"] in ("function", "operator") and c["argnum"] == 0 and not c.get("dup") and not c.get("layout") and not c.get("joint") and len(c["args"]) >= 2 and isf(c["args"][0]) and isf(c["args"][1]):
+            c2 = dict(c)
+            c2["joint"] = [0, 1]
+            extra.append(c2)
+            if len(c["args"]) >= 3 and isf(c["args"][2]):
+                c3 = dict(c)
+                c3["joint"] = [0, 1, 2]
+                extra3.append(c3)
     if mode == "order2":
-        # mixed second derivatives: both operands of two-argument configurations differentiated jointly
-        extra = []
-        isf = lambda a: (isinstance(a, (float, complex, onp.floating, onp.complexfloating)) and not isinstance(a, bool)) or (isinstance(a, onp.ndarray) and a.dtype.kind in "fc")
-        for c in out:
-            if c["form"] in ("function", "operator") and c["argnum"] == 0 and not c.get("dup") and not c.get("layout") and len(c["args"]) >= 2 and isf(c["args"][0]) and isf(c["args"][1]):
-                c2 = dict(c)
-                c2["joint"] = [0, 1]
-                extra.append(c2)
-        out = out + extra
+        out = out + extra + extra3
+    else:
+        out = out + extra[::4] + extra3
+    if mode == "order2":
         # every third configuration additionally with the zero-cotangent outer function
         extra = []
         for k, c in enumerate(out):
